@@ -351,6 +351,16 @@ class Run:
                     self.known_hits.append(k)
             else:
                 real.append((kind, rec))
+        # re-execute the concrete witnesses of every finding listed for this property
+        for k in known.get("findings", []):
+            if self.prop in k.get("properties", []) and k.get("witnesses") and k["id"] not in [x["id"] for x in self.known_hits]:
+                try:
+                    p = subprocess.run([bin_path(), "witness"], input="\n".join(json.dumps(w) for w in k["witnesses"]) + "\n",
+                                       stdout=subprocess.PIPE, stderr=subprocess.DEVNULL, text=True, timeout=600)
+                    if "reproduces" in p.stdout.split() or "abort" in p.stdout.split():
+                        self.known_hits.append(k)
+                except Exception as e:  # a witness that cannot run is not a finding
+                    log("note: witness of %s could not be executed: %s" % (k["id"], e))
         for k in self.known_hits:
             log("KNOWN-FINDING: property=%s %s" % (self.prop, k["text"]))
         os.makedirs(EVID, exist_ok=True)
